@@ -576,6 +576,32 @@ def root_key(R):
     return _STATE["rootkey"]
 
 
+class Hang(BaseException):
+    pass
+
+
+def _alarm(signum, frame):
+    raise Hang()
+
+
+def bounded(fn, seconds):
+    """fn() under a wall-clock bound (main thread only); raises Hang"""
+    import signal
+    import threading
+    if threading.current_thread() is not threading.main_thread():
+        return fn()
+    old = signal.signal(signal.SIGALRM, _alarm)
+    signal.setitimer(signal.ITIMER_REAL, seconds)
+    try:
+        return fn()
+    finally:
+        signal.setitimer(signal.ITIMER_REAL, 0)
+        signal.signal(signal.SIGALRM, old)
+
+
+DEC_BOUND_S = 3.0      # no input of the generators needs more than milliseconds; a decode that runs this long is reported as err:Hang
+
+
 def run_dec(R, hexs, extra):
     """-> (output line, rewritten op line for the model)"""
     data = unhx(hexs)
@@ -590,8 +616,10 @@ def run_dec(R, hexs, extra):
     with Instr(R) as ins:
         stream = ins.stream_cls(data)
         try:
-            v = R.S.Serializable.loadb(stream, **kw)
+            v = bounded(lambda: R.S.Serializable.loadb(stream, **kw), DEC_BOUND_S)
             out = "ok %s %d c=%d r=%d" % (canon(R, v), stream.tell(), ins.cost(), ins.reparsed)
+        except Hang:
+            out = "err:Hang c=0 r=0"
         except RecursionError:
             out = "err:RecursionError c=0 r=0"
         except Exception as e:
@@ -612,7 +640,10 @@ def run_decs(R, hexs, n, extra=()):
         out = None
         for i in range(n):
             try:
-                vals.append(canon(R, R.S.deserialize_value(stream)))
+                vals.append(canon(R, bounded(lambda: R.S.deserialize_value(stream), DEC_BOUND_S)))
+            except Hang:
+                out = "err:Hang at=%d" % i
+                break
             except Exception as e:
                 out = "err:%s at=%d" % (ename(R, e), i)
                 break
